@@ -1005,6 +1005,88 @@ func twoSectionsBody(c *mc.Ctx, item int) mc.Verdict {
 	return v
 }
 
+// restoreBody: "the dictionary stack is restored" — whatever the encrypted part
+// does to the dictionary stack (more begins than ends, more ends than begins)
+// the stack after the section is the one before `eexec`.
+var restorePlains = []string{"", "end ", "end end ", "end end end ", "1 dict begin ", "1 dict begin 2 dict begin ", "end 1 dict begin ", "end end 1 dict begin /zz 1 def "}
+
+func restoreBody(c *mc.Ctx, item int) mc.Verdict {
+	np := len(restorePlains)
+	body := restorePlains[item%np]
+	cont := (item / np) % 4
+	outer := (item / np / 4) % 3 // extra dictionaries open when eexec is entered
+	if strings.Count(body, "end ") > 1+outer {
+		// more `end`s than dictionaries above userdict: dictstackunderflow is correct
+		return mc.Pass("n/a:would-pop-userdict", false)
+	}
+	p := plaintext{name: "dictstack:" + body, enc: "/inside 5 def " + body + "mark currentfile closefile\n"}
+	var pre strings.Builder
+	for i := 0; i < outer; i++ {
+		fmt.Fprintf(&pre, "2 dict begin /marker%d %d def ", i, 70+i)
+	}
+	prog := append([]byte(pre.String()), buildSection(p, cont, "\n", defaultBinPrefix, nil)...)
+	prog = append(prog, "\ncleartomark "...)
+	for i := 0; i < outer; i++ {
+		fmt.Fprintf((*bytesWriter)(&prog), "marker%d ", i)
+	}
+	describe := func() string {
+		return fmt.Sprintf("%d extra dictionaries open, encrypted part `%s` (%s): %s", outer, p.enc, contNames[cont], show(prog))
+	}
+	intp := postscript.NewInterpreter()
+	err := intp.Execute(bytes.NewReader(prog))
+	c.Step()
+	fail := func(class, detail string) mc.Verdict {
+		v := mc.Fail("C05:dictstack-restore:"+class, detail+" | "+describe())
+		v.Render = describe()
+		return v
+	}
+	if err != nil {
+		return fail("error", "unexpected error "+err.Error())
+	}
+	if len(intp.DictStack) != 2+outer {
+		return fail("depth", fmt.Sprintf("dictionary stack depth %d after the section, %d before it", len(intp.DictStack), 2+outer))
+	}
+	if len(intp.Stack) != outer {
+		return fail("stack", fmt.Sprintf("operand stack depth %d, expected the %d marker values", len(intp.Stack), outer))
+	}
+	for i := 0; i < outer; i++ {
+		if intp.Stack[i] != postscript.Integer(70+i) {
+			return fail("stack", fmt.Sprintf("marker%d resolved to %v", i, intp.Stack[i]))
+		}
+	}
+	v := mc.Pass("restored", true)
+	if c.Render() {
+		v.Render = describe()
+	}
+	return v
+}
+
+type bytesWriter []byte
+
+func (b *bytesWriter) Write(p []byte) (int, error) { *b = append(*b, p...); return len(p), nil }
+
+// prefixSweepBody: every value of every one of the four prefix bytes, the
+// other three being hex digits: the form is binary unless all four are hex
+// digits, whatever the value (control bytes, high bytes, punctuation).
+func prefixSweepBody(c *mc.Ctx, item int) mc.Verdict {
+	pos, val := item/256, byte(item%256)
+	base := [4]byte{'3', 'c', 'E', '1'}
+	pi := c.Choose(3)
+	p := plaintexts[[]int{0, 3, 5}[pi]]
+	prefix := base
+	prefix[pos] = val
+	if !eexecref.LegalBinaryPrefix(prefix) {
+		return mc.Pass("n/a:not-a-legal-binary-prefix", false)
+	}
+	tis := trailersFor(p)
+	ti := tis[c.Choose(len(tis))]
+	prog := buildSection(p, contBinary, "\n", prefix, nil)
+	prog = append(prog, trailers[ti].text...)
+	return runCase(c, "prefix-byte-sweep", []int{0, 3, 5}[pi], ti, prog, 0, func() string {
+		return fmt.Sprintf("binary section with ciphertext prefix % x (byte %d swept), plaintext %s, trailer %s", prefix[:], pos, p.name, trailers[ti].name)
+	})
+}
+
 // defaultPrefixFor returns four lead bytes whose ciphertext is legal for the form.
 func defaultPrefixFor(cont int) [4]byte {
 	if cont == contBinary {
@@ -1078,6 +1160,10 @@ func main() {
 				Describe: func(i int) string { return fmt.Sprintf("%+v", pi[i]) },
 				CrashKey: func(int) string { return "C05:position:crash" },
 				Rule:     "item = (plaintext, container of 4, gap of 2, trailer of 4); choices: every offset from 8 bytes before `eexec` to 8 bytes after the first token following the encrypted part x {padding comment so that the 512-byte refill boundary falls there, source delivering exactly that many bytes first}; differential oracle; non-trivial = final state differs from a fresh interpreter's"})
+			fams = append(fams, mc.Family{Name: "dictstack-restore", Items: len(restorePlains) * 4 * 3, Body: restoreBody, Budget: budget,
+				Rule: "item = (what the encrypted part does to the dictionary stack: nothing, 1..3 extra `end`, 1..2 extra `begin`, mixtures) x container (binary, hex lower/upper/mixed) x 0..2 extra dictionaries open when eexec is entered; after the section the dictionary stack must be exactly the one before it (depth and contents: names defined in the outer dictionaries resolve again); non-trivial = every case"})
+			fams = append(fams, mc.Family{Name: "prefix-byte-sweep", Items: 4 * 256, Body: prefixSweepBody, Budget: budget,
+				Rule: "item = (position 0..3, byte value 0..255): binary section whose ciphertext prefix is three hex digits and that byte; x 3 plaintexts x trailers; differential against the clear-text run; non-trivial = the prefix is legal for the binary form"})
 			fams = append(fams, mc.Family{Name: "two-sections-in-one-stream", Items: len(plaintexts) * len(plaintexts) * 16, Body: twoSectionsBody, Budget: budget,
 				Rule: "item = (first plaintext, second plaintext, container of each from {binary, hex lower, hex upper, hex mixed}); choices = trailer after the first and after the second section; the program is section 1 + trailer + a second `currentfile eexec` section + trailer in ONE stream; state must equal the clear-text run of both (`systemdict begin .. end` twice); non-trivial = the clear-text run succeeds"})
 			return fams
